@@ -168,5 +168,24 @@ for n in sorted(set(names)):
                 seen.add(s)
                 break
 lines += enum_fields()
-open(os.path.join(V, "harness/fields_gen.h"), "w").write("// generated by tools/gen_fields.py - do not edit\n" + "\n".join(lines) + "\n")
+open(os.path.join(V, "harness/fields_gen.h"), "w").write("// generated by tools/gen_fields.py - do not edit (reference list; the harness compiles the fields_part_<n>.h files)\n" + "\n".join(lines) + "\n")
 print(len(lines), "fields")
+
+# ---- parts: generated + hand-written lines, whole classes together, balanced; compiled in parallel (lib/vf.py PARTS)
+NPARTS = 8
+hand = [l.strip() for l in open(os.path.join(V, "harness/fields_hand.h")) if re.match(r"\s*(F|FE|M|MB|OL|OO|OP)\(", l)]
+by_class = {}
+for l in lines + hand:
+    cls = re.match(r"\w+\(([^,]+),", l).group(1).strip()
+    by_class.setdefault(cls, []).append(l)
+bins = [[] for _ in range(NPARTS)]
+load = [0] * NPARTS
+for cls, ls in sorted(by_class.items(), key=lambda kv: -len(kv[1])):
+    k = load.index(min(load))
+    bins[k] += ls
+    load[k] += len(ls) + 2
+for k in range(NPARTS):
+    open(os.path.join(V, "harness/fields_part_%d.h" % k), "w").write("// generated by tools/gen_fields.py - do not edit\n" + "\n".join(bins[k]) + "\n")
+open(os.path.join(V, "harness/fields_parts.h"), "w").write("// generated by tools/gen_fields.py - do not edit\n#define NPARTS %d\n%s\n#define RUN_ALL_PARTS %s\n" % (
+    NPARTS, "\n".join("void runPart%d();" % k for k in range(NPARTS)), " ".join("runPart%d();" % k for k in range(NPARTS))))
+print("parts:", load)
